@@ -4,6 +4,7 @@ use crate::find::matchers::entry::verif_kani::{fmt_stub, Deps};
 use crate::find::matchers::Follow;
 
 // @harness props=C01 tier=quick cost=5
+// @replay quit_no_action
 // @exec QuitMatcher::{matches,has_side_effects}, MatcherIO::{quit,should_quit}
 // @sym none (the matcher has no inputs); previous quit state symbolic
 // @bounds single call
